@@ -134,6 +134,11 @@ def combos(chk, tier):
     KE = dict(elements=["E", "H"], pseudo_elements=["g"])
     out.append(("krome-var-reassigned+nograin", [d / "reassign.krome"], ["krome"], "", {}, KE))
     out.append(("krome-dexp-in-var+nograin", [d / "dexp-var.krome"], ["krome"], "", {}, KE))
+    # a header that spells out one of KROME's own temperature shortcuts in terms of another user variable
+    (d / "shortcut.krome").write_text("@var:kbeV = 8.617343d-5\n@var:Te = Tgas*kbeV\n@var:invT = 1d0/Tgas\n"
+                                      "@format:idx,R,R,R,P,P,P,P,Tmin,Tmax,rate\n1,H,E,,H+,E,E,,NONE,NONE,1.0d-10*Te*kbeV\n"
+                                      "2,H+,E,,H,,,,NONE,NONE,3.0d-12*invTe*invT\n")
+    out.append(("krome-shortcut-redefined+nograin", [d / "shortcut.krome"], ["krome"], "", {}, KE))
     # networks without hydrogen (the helper functions and the renormalisation refer to the H element only when there is one)
     from .c17 import native
     (d / "noh.naunet").write_text("\n".join([native(1, ["C", "O"], ["CO"]), native(2, ["C", "CR"], ["C+", "e-"], ty=101),
